@@ -84,6 +84,16 @@ def match_finding(f, v):
     for k, want in (m.get('where') or {}).items():
         if v.get('where', {}).get(k) not in _aslist(want):
             return False
+    for k, pat in (m.get('where_re') or {}).items():
+        import re
+        if not re.search(pat, str(v.get('where', {}).get(k))):
+            return False
+    for k, pat in (m.get('detail_re') or {}).items():
+        import re
+        d = v.get('detail')
+        val = d.get(k) if isinstance(d, dict) else None
+        if not re.search(pat, S.canon(val) if not isinstance(val, str) else val):
+            return False
     return True
 
 
@@ -152,7 +162,7 @@ class Run:
         violations = [v for r in self.results for v in r.get('violations', [])]
         inconclusive = [x for r in self.results for x in r.get('inconclusive', [])]
 
-        known = [f for f in load_known() if f['property'] == self.prop and f.get('status') == 'open']
+        known = [f for f in load_known() if self.prop in _aslist(f['property']) and f.get('status') == 'open']
         kf_hits, unlisted = {}, []
         for v in violations:
             for f in known:
